@@ -857,6 +857,20 @@ func (e *Env) runRecv(c *Chain, rel int, bz, proof []byte, height clienttypes.He
 
 func (e *Env) opRecvTss(op Op, opIdx int) {
 	c := e.chains[op.Chain]
+	if op.Variant == "copy" {
+		// EXACTLY the bytes of pool packet op.Pkt, no proof: only a TSS client named like the packet's source
+		// (the self-named client of the o7 scenario) can let it through
+		if len(e.pktPool) == 0 {
+			e.stat("recv_tss.copy.skipped_empty_pool")
+			return
+		}
+		e.prepare(c)
+		ent := e.pktPool[((op.Pkt%len(e.pktPool))+len(e.pktPool))%len(e.pktPool)]
+		class := e.runRecv(c, op.Relayer, append([]byte{}, ent.bz...), []byte{}, clienttypes.NewHeight(0, 1))
+		e.stat(fmt.Sprintf("recv_tss.copy.rel%d.class%d", op.Relayer, class))
+		e.finish(c, op.Commit)
+		return
+	}
 	e.prepare(c)
 	src := fmt.Sprintf("tss-%d", c.idx)
 	dst := c.name
